@@ -474,6 +474,60 @@ func runR175(c *Ctx) {
 		}
 		return badPos
 	}()), "register · copy · remove · store outcome · close, exactly once on every path", bad)
+	// check-then-act: an entry is registered only when, within the same
+	// tenure of the lock, a lookup of the map said that nobody is in flight
+	{
+		isUnlock := func(ins ssa.Instruction) bool {
+			cc := callOf(ins)
+			if cc == nil || cc.StaticCallee() == nil || len(cc.Args) == 0 {
+				return false
+			}
+			nm := cc.StaticCallee().Name()
+			if nm != "Unlock" && nm != "RUnlock" {
+				return false
+			}
+			fa, ok := cc.Args[0].(*ssa.FieldAddr)
+			return ok && fieldOf(fa) == lock
+		}
+		stale := ""
+		var stalePos token.Pos
+		// 0: no fresh negative lookup; 1: fresh negative lookup
+		explorePaths(&pathSpec{Fn: fn, Init: 0,
+			Step: func(st int, ev pathEvent) int {
+				if ev.Ins != nil {
+					if isUnlock(ev.Ins) {
+						return 0
+					}
+					if mu, ok := ev.Ins.(*ssa.MapUpdate); ok && isMap(mu.Map) && st == 0 && stale == "" {
+						stale, stalePos = "a caller registers itself as the one replicating the object without having seen, since it last acquired the lock, that no replication of that object is in flight: after waiting for a failed leader several waiters wake up, each installs its own entry and each starts a copy of the same object (and they overwrite and delete each other's entries)", mu.Pos()
+					}
+					return st
+				}
+				cnd, v := ev.Cond, ev.Val
+				for {
+					if u, ok := cnd.(*ssa.UnOp); ok && u.Op == token.NOT {
+						cnd, v = u.X, !v
+						continue
+					}
+					break
+				}
+				if ex, ok := cnd.(*ssa.Extract); ok && ex.Index == 1 {
+					if lk, ok := ex.Tuple.(*ssa.Lookup); ok && lk.CommaOk && isMap(lk.X) {
+						if v {
+							return 0
+						}
+						return 1
+					}
+				}
+				return st
+			}})
+		c.Check(stale == "", name, "check-then-register", c.Pos(func() token.Pos {
+			if stale == "" {
+				return fn.Pos()
+			}
+			return stalePos
+		}()), "registration follows a negative lookup under the same lock tenure", stale)
+	}
 	// waiter: reads success after receiving from finished; skips only on success
 	okWaiter, found := true, false
 	why := "waiters do not consult the leader's outcome"
